@@ -244,15 +244,26 @@ class JSONPointer:
             )
         return ""
 
-    def _unicode_escape(self, s: str) -> str:
+    @staticmethod
+    def _unicode_escape(s: str) -> str:
         # UTF-16 escape sequences - possibly surrogate pairs - inside UTF-8
         # encoded strings. As per https://datatracker.ietf.org/doc/html/rfc4627
         # section 2.5.
-        return (
-            codecs.decode(s.replace("\\/", "/"), "unicode-escape")
-            .encode("utf-16", "surrogatepass")
-            .decode("utf-16")
-        )
+        if "\\" not in s:
+            return s
+        try:
+            return (
+                codecs.decode(
+                    # Keep non-ASCII characters intact: the codec reads bytes
+                    # as Latin-1, so spell everything else as an escape first.
+                    s.replace("\\/", "/").encode("latin-1", "backslashreplace"),
+                    "unicode-escape",
+                )
+                .encode("utf-16", "surrogatepass")
+                .decode("utf-16")
+            )
+        except UnicodeError as err:
+            raise JSONPointerError(f"invalid escape sequence: {err}") from None
 
     @classmethod
     def from_match(
@@ -298,12 +309,7 @@ class JSONPointer:
         if uri_decode:
             _parts = (unquote(p) for p in _parts)
         if unicode_escape:
-            _parts = (
-                codecs.decode(p.replace("\\/", "/"), "unicode-escape")
-                .encode("utf-16", "surrogatepass")
-                .decode("utf-16")
-                for p in _parts
-            )
+            _parts = (cls._unicode_escape(p) for p in _parts)
 
         __parts = tuple(_parts)
 
